@@ -150,7 +150,7 @@ def rule_formula(ctx):
   f, w = walk(repo, "Double")
   n = 0
   for e in w.events:
-    if e.kind == "return" and isinstance(e.data["value"], Seq) and len(e.data["value"].items) == 2:
+    if e.kind == "return" and isinstance(e.data["value"], Seq) and len(e.data["value"].items) == 2 and not all(isinstance(x, Const) for x in e.data["value"].items):
       n += 1
       x, y = fr(comp(p, 0)), fr(comp(p, 1))
       sx, sy = affine_double(x, y, fr(A))
@@ -177,6 +177,18 @@ def rule_formula(ctx):
       want = sym.mk("mcall", SELF, P("lit", "Add"), p, sym.mk("mcall", SELF, P("lit", "Negate"), q))
       ok = v == want
   ctx.record(R, f.where, "Add(p, Negate(q))", ok, "subtraction = addition of the negative" if ok else "Subtract is not Add(p, Negate(q))")
+  # ---- Double: a return of the point at infinity for a finite point is right only for y = 0 (vertical tangent)
+  f, w = walk(repo, "Double")
+  okv = True
+  nv = 0
+  for e in w.events:
+    if e.kind == "return" and has_fact(e.facts, "cmp", "NotEq", p, INF) and same(e.data["value"], INF):
+      nv += 1
+      if not (coord_fact(e.facts, "Eq", comp(p, 1), Poly.const(0))):
+        okv = False
+  if nv:
+    ctx.record(R, f.where, "2-torsion", okv, "infinity is returned for a finite point only when y = 0 (mod p): the tangent is vertical" if okv else
+               "Double returns the point at infinity for a finite point with y != 0")
   # ---- DoubleJacobian
   f, w = walk(repo, "DoubleJacobian")
   n = 0
@@ -357,6 +369,14 @@ def compare_frac(cf, spec, facts):
 
 
 # ------------------------------------------------------------------ DISPATCH
+def coord_fact(facts, op, a, b):
+  """a == b / a != b as integers, or as residues: (a - b) % self.mod == 0 / != 0."""
+  if has_fact(facts, "cmp", op, a, b):
+    return True
+  zero = Poly.const(0)
+  return has_fact(facts, "cmp", op, sym.mk("mod", a - b, M), zero) or has_fact(facts, "cmp", op, sym.mk("mod", b - a, M), zero)
+
+
 def has_fact(facts, kind, op, a, b):
   for f_ in facts:
     if f_[0] == kind and f_[1] == op:
@@ -387,10 +407,10 @@ def rule_dispatch(ctx):
     fs = e.facts
     p_inf = has_fact(fs, "cmp", "Eq", p, INF)
     q_inf = has_fact(fs, "cmp", "Eq", q, INF)
-    xeq = has_fact(fs, "cmp", "Eq", comp(p, 0), comp(q, 0))
-    yeq = has_fact(fs, "cmp", "Eq", comp(p, 1), comp(q, 1))
-    yne = has_fact(fs, "cmp", "NotEq", comp(p, 1), comp(q, 1))
-    xne = has_fact(fs, "cmp", "NotEq", comp(p, 0), comp(q, 0))
+    xeq = coord_fact(fs, "Eq", comp(p, 0), comp(q, 0))
+    yeq = coord_fact(fs, "Eq", comp(p, 1), comp(q, 1))
+    yne = coord_fact(fs, "NotEq", comp(p, 1), comp(q, 1))
+    xne = coord_fact(fs, "NotEq", comp(p, 0), comp(q, 0))
     if p_inf:
       rows["q"] = same(v, q) or bad.append("inf + q does not return q")
     elif q_inf:
